@@ -3,6 +3,7 @@ import CacheVerif.Generated.DeepSimp
 import CacheVerif.Model.CacheOf
 import CacheVerif.Proofs.DeepCache
 /-!
+# (derived from DeepCache.lean by tools/mk_deep_of.sh — edit that file, then regenerate)
 # The hand-written model M2 (`Model.CacheOf`) is the meaning of the current text of `xsync_mapof.go`
 
 For every state and every operation, running the method of the *generated* syntax (`Gen.Deep.xsyncMap_*`, printed
@@ -105,6 +106,39 @@ theorem deep_compute (s : CSt K V) (k : K) (g : Option V → V × Bool) (d : Int
     by_cases he : Gen.itemOf_expired i.e s.now
     · exact deep_compute_dead s k g d i hg he
     · exact deep_compute_live s k g d i hg he
+
+theorem deep_getOrComputeSlow (s : CSt K V) (k : K) (f : V) (d : Int) (δ : Nat) :
+    deepStep twinMapOf s (.getOrComputeSlow k f d δ) = some (Model.CacheOf.step s (.getOrComputeSlow k f d δ)) := by
+  by_cases h1 : d = Gen.DefaultExpiration <;> by_cases h2 : d > 0 <;> by_cases h3 : s.dflt > 0 <;>
+  cases hg : s.items.get k with
+  | none => simp [deep_simp, twinMapOf, hg, h1, h2, h3]
+  | some i => by_cases he : Gen.itemOf_expired i.e s.now <;> simp [deep_simp, twinMapOf, hg, he, h1, h2, h3]
+
+theorem deep_computeSlow_absent (s : CSt K V) (k : K) (g : Option V → V × Bool) (d : Int) (δ : Nat) (hg : s.items.get k = none) :
+    deepStep twinMapOf s (.computeSlow k g d δ) = some (Model.CacheOf.step s (.computeSlow k g d δ)) := by
+  by_cases h1 : d = Gen.DefaultExpiration <;> by_cases h2 : d > 0 <;> by_cases h3 : s.dflt > 0 <;>
+  cases hd : (g none).2 <;> simp [deep_simp, twinMapOf, hg, h1, h2, h3, hd]
+
+theorem deep_computeSlow_dead (s : CSt K V) (k : K) (g : Option V → V × Bool) (d : Int) (δ : Nat) (i : Item V) (hg : s.items.get k = some i)
+    (he : Gen.itemOf_expired i.e s.now = true) :
+    deepStep twinMapOf s (.computeSlow k g d δ) = some (Model.CacheOf.step s (.computeSlow k g d δ)) := by
+  by_cases h1 : d = Gen.DefaultExpiration <;> by_cases h2 : d > 0 <;> by_cases h3 : s.dflt > 0 <;>
+  cases hd : (g none).2 <;> simp [deep_simp, twinMapOf, hg, he, h1, h2, h3, hd]
+
+theorem deep_computeSlow_live (s : CSt K V) (k : K) (g : Option V → V × Bool) (d : Int) (δ : Nat) (i : Item V) (hg : s.items.get k = some i)
+    (he : ¬ Gen.itemOf_expired i.e s.now = true) :
+    deepStep twinMapOf s (.computeSlow k g d δ) = some (Model.CacheOf.step s (.computeSlow k g d δ)) := by
+  by_cases h1 : d = Gen.DefaultExpiration <;> by_cases h2 : d > 0 <;> by_cases h3 : s.dflt > 0 <;>
+  cases hd : (g (some i.v)).2 <;> simp [deep_simp, twinMapOf, hg, he, h1, h2, h3, hd]
+
+theorem deep_computeSlow (s : CSt K V) (k : K) (g : Option V → V × Bool) (d : Int) (δ : Nat) :
+    deepStep twinMapOf s (.computeSlow k g d δ) = some (Model.CacheOf.step s (.computeSlow k g d δ)) := by
+  cases hg : s.items.get k with
+  | none => exact deep_computeSlow_absent s k g d δ hg
+  | some i =>
+    by_cases he : Gen.itemOf_expired i.e s.now
+    · exact deep_computeSlow_dead s k g d δ i hg he
+    · exact deep_computeSlow_live s k g d δ i hg he
 
 theorem deep_getAndDelete (s : CSt K V) (k : K) :
     deepStep twinMapOf s (.getAndDelete k) = some (Model.CacheOf.step s (.getAndDelete k)) := by
@@ -296,6 +330,8 @@ theorem deep_step (s : CSt K V) (op : Op K V) : deepStep twinMapOf s op = some (
   | evictedCallback => exact (deep_misc s 0 none).2.2.2.2.2.1
   | setEvictedCallback c => exact (deep_misc s 0 c).2.2.2.2.2.2
   | tick δ => simp [deepStep, Model.CacheOf.step]
+  | getOrComputeSlow k f d δ => exact deep_getOrComputeSlow s k f d δ
+  | computeSlow k g d δ => exact deep_computeSlow s k g d δ
 
 /-- whole call sequences -/
 theorem deep_run (s : CSt K V) (ops : List (Op K V)) : deepRun twinMapOf s ops = some (Model.CacheOf.run s ops) := by
